@@ -16,7 +16,7 @@ from ..common import rmtree, scratch
 
 VAL = {"null": None, "true": True, "false": False, "i0": 0, "i1": 1, "im1": -1, "f10": 1.0, "f15": 1.5, "sabc": "abc", "s1": "1", "s15": "1.5",
        "strue": "true", "sTRUE": "TRUE", "sdate": "2020-01-02", "sdt": "2020-01-02T03:04:05+00:00", "suuid": "12345678-1234-5678-1234-567812345678",
-       "sNone": "None", "arr": [], "obj": {}, "sa": "a", "szzz": "zzz", "squote": 'a"b', "i2": 2, "i7": 7}
+       "sNone": "None", "arr": [], "obj": {}, "sa": "a", "szzz": "zzz", "squote": 'a"b', "i2": 2, "i7": 7, "ibig": 2 ** 53 + 1, "imax": 2 ** 63 - 1}
 ES = {"type": "string", "enum": ["a", "b"]}
 EI = {"type": "integer", "enum": [1, 2]}
 KIND = {"string": {"type": "string"}, "int": {"type": "integer"}, "float": {"type": "number"}, "bool": {"type": "boolean"},
@@ -24,7 +24,8 @@ KIND = {"string": {"type": "string"}, "int": {"type": "integer"}, "float": {"typ
         "enums": ES, "enumi": EI, "lits": ES, "liti": EI, "consts": {"const": "abc"}, "consti": {"const": 1}, "any": {}, "none": {"type": "null"},
         "file": {"type": "string", "format": "binary"}, "list": {"type": "array", "items": {"type": "integer"}},
         "model": {"allOf": [{"$ref": "#/components/schemas/M"}]}, "uintstr": {"type": ["integer", "string"]},
-        "udateint": {"oneOf": [{"type": "string", "format": "date"}, {"type": "integer"}]}}
+        "udateint": {"oneOf": [{"type": "string", "format": "date"}, {"type": "integer"}]},
+        "umodelstr": {"oneOf": [{"$ref": "#/components/schemas/M"}, {"type": "string"}]}, "umodelint": {"oneOf": [{"$ref": "#/components/schemas/M"}, {"type": "integer"}]}}
 OTHER = {"string": ["zzz", "yyy"], "int": [7, 8], "float": [2.5, 3.5], "bool": [True, False], "date": ["2021-02-03", "2022-03-04"],
          "datetime": ["2021-02-03T04:05:06+00:00", "2022-03-04T05:06:07+00:00"], "uuid": ["22345678-1234-5678-1234-567812345678", "32345678-1234-5678-1234-567812345678"],
          "enums": ["a", "b"], "enumi": [1, 2]}
